@@ -30,6 +30,8 @@ def run_check(prop, root):
 def one(name, allc, claimed):
     d = os.path.join(ROOT, name)
     meta = json.load(open(os.path.join(d, "meta.json")))
+    if meta.get("retired"):
+        return name, "retired"
     props = claimed if allc else sorted(set([meta["property"]] + list(meta.get("alarms_at_first_contact", {}))) & set(claimed))
     tmp = tempfile.mkdtemp(prefix="rbwt_")
     try:
@@ -56,6 +58,10 @@ def main():
     with ThreadPool(8) as tp:
         res = tp.starmap(one, [(n, allc, claimed) for n in names])
     bad = 0
+    retired = [n for n, out in res if out == "retired"]
+    res = [(n, out) for n, out in res if out != "retired"]
+    if retired:
+        print("retired (patch written against an earlier repo commit, not replayed): %s" % " ".join(retired))
     for n, out in res:
         if out:
             bad += 1
